@@ -14,6 +14,7 @@ import Minicbor.Drv.Balanced
 import Minicbor.Drv.Frame
 import Minicbor.Drv.Serde
 import Minicbor.Drv.Attrs
+import Minicbor.Drv.Iter
 
 open Minicbor Minicbor.Drv
 
@@ -31,6 +32,7 @@ def dispatch (line : String) : String :=
   | "wf" :: w => wfOp w
   | "seq" :: w => seqOp w
   | "size" :: w => sizeOp w
+  | "aiter" :: w => aiterOp w
   | "enciter" :: w => enciterOp w
   | "intconv" :: w => intconvOp w
   | "tenc" :: w => Typed.tencOp w
